@@ -108,9 +108,6 @@ macro_rules! common {
         impl<'a> MulAssign<&'a $T> for $T { fn mul_assign(&mut self, o: &$T) { *self = *self * *o; } }
         impl<'a> DivAssign<&'a $T> for $T { fn div_assign(&mut self, o: &$T) { *self = *self / *o; } }
         impl Real for $T { fn from_f64(n: f64) -> Self { $T::c(n) } }
-        impl FromScalar for $T { type Scalar = $T; fn from_scalar(s: $T) -> Self { s } }
-        impl FromScalarArray<1> for $T { fn from_array(s: [$T; 1]) -> Self { s[0] } }
-        impl IntoScalarArray<1> for $T { fn into_array(self) -> [$T; 1] { [self] } }
         impl Zero for $T { fn zero() -> Self { $T::c(0.0) } }
         impl One for $T { fn one() -> Self { $T::c(1.0) } }
         impl MinMax for $T {
@@ -192,6 +189,13 @@ macro_rules! common {
 }
 common!(SymS);
 common!(SymV);
+// like wide::f32x4 (Scalar = f32): the scalar type of the vector instantiation has Mask = bool
+impl FromScalar for SymS { type Scalar = SymS; fn from_scalar(s: SymS) -> Self { s } }
+impl FromScalarArray<1> for SymS { fn from_array(s: [SymS; 1]) -> Self { s[0] } }
+impl IntoScalarArray<1> for SymS { fn into_array(self) -> [SymS; 1] { [self] } }
+impl FromScalar for SymV { type Scalar = SymS; fn from_scalar(s: SymS) -> Self { SymV(s.0) } }
+impl FromScalarArray<1> for SymV { fn from_array(s: [SymS; 1]) -> Self { SymV(s[0].0) } }
+impl IntoScalarArray<1> for SymV { fn into_array(self) -> [SymS; 1] { [SymS(self.0)] } }
 
 // ---- scalar mode: decisions ----
 impl PartialCmp for SymS {
